@@ -154,7 +154,8 @@ Proof.
   exists t, par, s. exact Hin.
 Qed.
 (* The statement over CREATION-time descendants (the ghost path cpath, which survives the freeing of intermediate
-   notes): when nothing is in progress, every live completed note below a notified one is notified.  NOT proved.
+   notes): when nothing is in progress, every live completed note below a notified one is notified.  PROVED since the third
+   session: Props/Properties_C08b.v (C08_descendants_full_holds) and, in the local form with the waiters' release, Props/Properties_C08c.v.
    Missing piece: the invariant that ties the creation path to the current tree across adoptions, namely
      "a live completed note m with flag 0 and positive expiry that has a creation-ancestor a with flag a <> 0 is
       currently linked (parent m = Some r) under a note r with cpath r a",
